@@ -87,4 +87,60 @@ theorem simLot_correct (pks : List (G × ℤ)) :
   simp only [List.map_map] at this
   exact this
 
+/-- ed_mul_dig: total and [k]P for every single-digit scalar, every point -/
+theorem mulDig_correct (isO : G → Bool) (hO : IsOSound isO) (w : Nat) (p : G) (k : Nat) (hk : k < 2 ^ w) :
+    mulDig gops isO w p k = some ((k : ℤ) • p) := by
+  unfold mulDig
+  split
+  · rename_i hex
+    rcases hex with h | h
+    · subst h; simp
+    · rw [hO p h]; simp
+  · rename_i hne
+    have hk0 : 0 < k := by
+      rcases Nat.eq_zero_or_pos k with h | h
+      · exact absurd (Or.inl h) hne
+      · exact h
+    have hb : Rec.bitLen k ≤ w := by
+      have h1 := (Rec.bitLen_spec k hk0).1
+      have h2 : 2 ^ (Rec.bitLen k - 1) < 2 ^ w := by omega
+      have h3 := (Nat.pow_lt_pow_iff_right (by decide : 1 < 2)).1 h2
+      omega
+    obtain ⟨ds, hds⟩ : ∃ ds, Rec.recNaf (w + 1) k 2 = some ds := by
+      unfold Rec.recNaf
+      rw [if_neg (by omega)]
+      exact ⟨_, rfl⟩
+    rw [hds, Option.map_some]
+    congr 1
+    have := signedNaf_correct p (k : ℤ) 2 (w + 1) (le_refl _) ds (by simpa using hds)
+    have hnn : ¬ ((k : ℤ) < 0) := by omega
+    simpa [tabOdd, signed_spec, hnn] using this
+
+/-- ed_mul_gen: the dispatch around the configured fixed-base method -/
+theorem mulGen_correct (fix : G → ℤ → Option G) (g : G) (k : ℤ) (hfix : fix g k = some (k • g)) :
+    mulGen gops fix g k = some (k • g) := by
+  unfold mulGen
+  split
+  · rename_i h; subst h; simp
+  · exact hfix
+
+/-- ed_mul_sim_gen: the early exits (k = 0 ⇒ ed_mul(Q, m); m = 0 ∨ Q = O ⇒ ed_mul_gen(k)) and the choice between the
+    generator-table branch and ed_mul_sim are right whenever the routines they call are -/
+theorem simGen_correct (isO : G → Bool) (hO : IsOSound isO) (mul fix : G → ℤ → Option G) (sim : G → ℤ → G → ℤ → Option G)
+    (plain : Option (G → ℤ → G → ℤ → Option G)) (g : G) (k : ℤ) (q : G) (m : ℤ)
+    (hmul : mul q m = some (m • q)) (hfix : fix g k = some (k • g)) (hsim : sim g k q m = some (k • g + m • q))
+    (hplain : ∀ f, plain = some f → f g k q m = some (k • g + m • q)) :
+    simGen gops isO mul fix sim plain g k q m = some (k • g + m • q) := by
+  unfold simGen
+  split
+  · rename_i h; subst h; rw [hmul]; simp
+  · split
+    · rename_i hex
+      rw [mulGen_correct fix g k hfix]
+      rcases hex with h | h
+      · subst h; simp
+      · rw [hO q h, zsmul_zero, add_zero]
+    · split
+      · rename_i f; exact hplain f rfl
+      · exact hsim
 end Relic.Model.EdMul
